@@ -99,6 +99,10 @@ fn gen_case(tape: Vec<u8>) -> Case {
         // "no chain id" written out: the member is there, its value is null. Whatever a guard looks at (the key,
         // the parsed value), what comes out without the flag must not be an unprotected signature.
         doc.insert_str(1, "\"chainId\":null,");
+    } else if shape == Shape::LegacyNoChain && u.ratio(1, 3) && doc.starts_with('{') && doc.len() > 2 {
+        // the signature members of a JSON-RPC transaction object with an unprotected v: they are not a chain id
+        let v = ["27", "28", "\"0x1b\"", "\"0x1c\"", "0", "1", "\"0x0\"", "\"0x1\""][u.below(8)];
+        doc.insert_str(1, &format!("\"v\":{v},\"r\":\"0x1\",\"s\":\"0x2\","));
     }
     let other = loop {
         let o = gen_chain(&mut u).unwrap_or_else(|| Big::from_u128(5));
